@@ -470,7 +470,27 @@ class Parser:
             elif k == "union":
                 die("%s: union" % self.where(start))
             elif k == "macro_rules":
-                die("%s: macro_rules! definition" % self.where(start))
+                # a macro whose body can define no type and mention no serde item is as irrelevant as an impl
+                self.expect("!")
+                name = self.ident()
+                body = self.balanced()
+                if self.at(";"):
+                    self.next()
+                bad = [t.text for t in body if t.kind == "ident" and t.text in
+                       ("struct", "enum", "union", "type", "mod", "derive", "serde", "cfg_attr", "Serialize", "Deserialize",
+                        "Serializer", "Deserializer", "macro_rules", "include")]
+                if bad:
+                    die("%s: macro_rules! %s whose body mentions %s (it could define or change serialised types)"
+                        % (self.where(start), name, ", ".join(sorted(set(bad)))))
+                self.safe_macros = getattr(self, "safe_macros", set()) | {name}
+                skipped.append(dict(kind="macro_rules", line=start.line, header=name))
+            elif self.at("!") and k in getattr(self, "safe_macros", set()):
+                # invocation of a macro defined above that cannot define types
+                self.next()
+                self.balanced()
+                if self.at(";"):
+                    self.next()
+                skipped.append(dict(kind="macro invocation", line=start.line, header=k))
             else:
                 die("%s: item keyword %r" % (self.where(start), k))
         return defs, skipped
